@@ -39,6 +39,8 @@ static pair_t PAIRS[] = {
 	{ "p256a", JWT_ALG_ES256, 0, 0 }, { "p384", JWT_ALG_ES384, 0, 0 }, { "p521", JWT_ALG_ES512, 0, 0 }, { "k256", JWT_ALG_ES256K, 1, 0 },
 	{ "p256_x0", JWT_ALG_ES256, 0, 1 }, { "k256", JWT_ALG_ES256, 1, 1 },
 	{ "ed25519a", JWT_ALG_EDDSA, 0, 0 }, { "ed448", JWT_ALG_EDDSA, 0, 0 },
+	/* RSA moduli that are not a whole number of octets (keys/extra) */
+	{ "rsa2050", JWT_ALG_RS256, 0, 0 }, { "rsa2050", JWT_ALG_PS256, 0, 1 }, { "rsa3002", JWT_ALG_RS384, 0, 1 },
 };
 #define NPAIRS ((int)(sizeof PAIRS / sizeof *PAIRS))
 
@@ -1101,6 +1103,7 @@ static void enumerate(void)
 	vf_alloc_install();
 	vf_alloc_track(1);
 	vk_load();
+	vk_load_extra();
 	rc_rng_install();
 	vf_now = T0;
 	lj_select_provider(!strcmp(vf_prop, "C12") ? 0 : vf_param);
